@@ -1342,3 +1342,81 @@ def ctrl13(ctx) -> List[Ob]:
         else:
             out.append(ok("CTRL-13", fn.qualname, key, where, "not used across the header unification"))
     return out
+
+
+@rule("CTRL-14", 1, "a control value written into an assignment table is an integer on every path: where it comes from a reverse lookup, the value returned when nothing matches is an integer constant too (values are compared with integer table keys, and are written to / read from the serialised form as integers)")
+def ctrl14(ctx) -> List[Ob]:
+    out: List[Ob] = []
+    from .common import as_reverse_lookup, reverse_lookup_call
+
+    fn = ctx.prog.find_function("loop_restructure_helper", "transformations")
+    if fn is None:
+        raise AnalysisError("loop_restructure_helper not found")
+    seen = set()
+    n_calls = 0
+
+    def default_of(rl) -> Optional[ast.AST]:
+        f = rl.fn
+        if isinstance(rl.loop.iter, ast.AST) and not any(rl.loop is x for x in ast.walk(f.node)):
+            # written as next(<generator>, default)
+            for c in A.walk_no_nested(f.node):
+                if isinstance(c, ast.Call) and isinstance(c.func, ast.Name) and c.func.id == "next":
+                    return c.args[1] if len(c.args) > 1 else ast.Name(id="<StopIteration>", ctx=ast.Load())
+            return None
+        rets = [r for r in A.walk_no_nested(f.node) if isinstance(r, ast.Return) and not any(r is x for x in ast.walk(ast.Module(rl.loop.body, [])))]
+        if not rets:
+            return ast.Constant(value=None)
+        return rets[-1].value if rets[-1].value is not None else ast.Constant(value=None)
+
+    for scope in [fn] + [g for g in ctx.prog.functions if g.parent_fn is fn]:
+        for c in A.walk_no_nested(scope.node):
+            if not isinstance(c, ast.Call):
+                continue
+            if isinstance(c.func, ast.Name) and c.func.id == "next" and c.args and isinstance(c.args[0], ast.GeneratorExp) and ".items()" in A.unparse(c.args[0]) and scope is fn:
+                # the lookup written out at the use
+                n_calls += 1
+                d = c.args[1] if len(c.args) > 1 else None
+                key = "not-found value of " + A.alpha_key(c)[:60]
+                if (isinstance(d, ast.Constant) and isinstance(d.value, int) and not isinstance(d.value, bool)) or (isinstance(d, ast.UnaryOp) and isinstance(d.op, ast.USub) and isinstance(d.operand, ast.Constant) and isinstance(d.operand.value, int)):
+                    out.append(ok("CTRL-14", fn.qualname, key, ctx.where(fn, c), f"default {A.unparse(d)}"))
+                else:
+                    out.append(bad("CTRL-14", fn.qualname, key, ctx.where(fn, c), f"the lookup yields {A.unparse(d) if d is not None else 'StopIteration'} when no entry matches: a non-integer control value is written into a variable assignment (it is not a key of any value table, and the YAML form reads it back as a string)"))
+                continue
+            r = reverse_lookup_call(ctx.prog, scope, c)
+            if r is None:
+                continue
+            n_calls += 1
+            rl = r[0]
+            if id(rl.fn.node) in seen:
+                continue
+            seen.add(id(rl.fn.node))
+            d = default_of(rl)
+            key = f"not-found value of {rl.fn.name}"
+            where = ctx.where(rl.fn)
+            if isinstance(d, ast.UnaryOp) and isinstance(d.op, ast.USub) and isinstance(d.operand, ast.Constant) and isinstance(d.operand.value, int):
+                out.append(ok("CTRL-14", rl.fn.qualname, key, where, f"returns {A.unparse(d)} when nothing matches"))
+            elif isinstance(d, ast.Constant) and isinstance(d.value, int) and not isinstance(d.value, bool):
+                out.append(ok("CTRL-14", rl.fn.qualname, key, where, f"returns {d.value} when nothing matches"))
+            elif isinstance(d, ast.Name) and d.id in [p.arg for p in rl.fn.params]:
+                # the default is a parameter: every call site must pass an integer
+                pi = [p.arg for p in rl.fn.params].index(d.id)
+                badsites = []
+                for s_ in [fn] + [g for g in ctx.prog.functions if g.parent_fn is fn]:
+                    for c2 in A.walk_no_nested(s_.node):
+                        if isinstance(c2, ast.Call) and reverse_lookup_call(ctx.prog, s_, c2) is not None and reverse_lookup_call(ctx.prog, s_, c2)[0].fn is rl.fn:
+                            a = kw(c2, d.id, pi)
+                            if a is None:
+                                dflt = rl.fn.node.args.defaults
+                                a = dflt[-1] if dflt else None
+                            okv = (isinstance(a, ast.Constant) and isinstance(a.value, int) and not isinstance(a.value, bool)) or (isinstance(a, ast.UnaryOp) and isinstance(a.operand, ast.Constant) and isinstance(a.operand.value, int))
+                            if not okv:
+                                badsites.append(c2)
+                if badsites:
+                    out.append(bad("CTRL-14", fn.qualname, key, ctx.where(fn, badsites[0]), f"{A.unparse(badsites[0])[:60]} lets the lookup return a non-integer when nothing matches: that value is written into a variable assignment"))
+                else:
+                    out.append(ok("CTRL-14", rl.fn.qualname, key, where, "the not-found value is a parameter; every call in loop restructuring passes an integer"))
+            else:
+                out.append(bad("CTRL-14", rl.fn.qualname, key, where, f"{rl.fn.name} returns {A.unparse(d) if d is not None else '?'} when nothing matches: a non-integer control value is written into a variable assignment (it is not a key of any value table, and the YAML form reads `None` back as the string 'None')"))
+    if n_calls < 3:
+        raise AnalysisError(f"CTRL-14: only {n_calls} reverse lookups found in loop restructuring")
+    return out
